@@ -32,6 +32,7 @@ pub fn discover() -> Report {
     let mut cases = 0u64;
     let lines: Vec<(&str, Option<(&str, bool)>)> = vec![
         ("var a = 1;", None), ("//# sourceMappingURL=foo.js.map", Some(("foo.js.map", false))), ("//@ sourceMappingURL=old.map  ", Some(("old.map", true))),
+        ("//# sourceMappingURL= spaced.map", Some(("spaced.map", false))), ("//# sourceMappingURL=\tt.map\t", Some(("t.map", false))),
         (" //# sourceMappingURL=indented.map", None), ("x //# sourceMappingURL=mid.map", None), ("//# sourceMappingURL=", Some(("", false))), ("// # sourceMappingURL=no.map", None), ("", None)];
     let mut texts: Vec<Vec<usize>> = vec![]; let mut layer: Vec<Vec<usize>> = vec![vec![]];
     for _ in 0..3 { let mut next = vec![]; for l in &layer { for i in 0..lines.len() { let mut t = l.clone(); t.push(i); next.push(t); } } texts.extend(next.iter().cloned()); layer = next; }
@@ -43,15 +44,18 @@ pub fn discover() -> Report {
         let g2 = got.as_ref().map(|x| match x { SourceMapRef::Ref(u) => (u.as_str(), false), SourceMapRef::LegacyRef(u) => (u.as_str(), true) });
         if g2 != want { return r("discover", bound, cases, Some(format!("text {s:?}: discovered {g2:?}, the first line beginning with a sourceMappingURL comment gives {want:?}"))); }
     } } }
-    for ntok in 0..3u32 { for root in [None, Some("r")] {
+    for ntok in 0..3u32 { for root in [None, Some("r")] { for pad in 0..4usize { for blank in ["", " "] {
         cases += 1;
+        // source names with '>' '?' '~' at every alignment: their base64 uses the digits 62 and 63
+        let odd = format!("{}>>>???~~~\u{ff}\u{3ff}.js", "x".repeat(pad));
         let mut b = SourceMapBuilder::new(Some("f.js"));
+        b.add_source(&odd);
         for i in 0..ntok { b.add(i, i * 3, i, 1, Some("a.js"), Some("n"), false); }
         b.set_source_root(root);
         let sm = b.into_sourcemap();
         let url = match sm.to_data_url() { Ok(u) => u, Err(e) => return r("discover", bound, cases, Some(format!("to_data_url: {e}"))) };
         let view = |m: &SourceMap| m.tokens().map(|t| (t.get_dst(), t.get_source().map(|s| s.to_string()), t.get_src(), t.get_name().map(|s| s.to_string()))).collect::<Vec<_>>();
-        let text = format!("var x;\n//# sourceMappingURL={url}\n");
+        let text = format!("var x;\n//# sourceMappingURL={blank}{url}\n");
         let found = locate_sourcemap_reference_slice(text.as_bytes()).ok().flatten();
         let emb = found.as_ref().and_then(|f| f.get_embedded_sourcemap().ok().flatten());
         for (what, dm) in [("decode_data_url", guarded(|| decode_data_url(&url)).ok().and_then(|x| x.ok())), ("discovered + get_embedded_sourcemap", emb)] {
@@ -60,7 +64,7 @@ pub fn discover() -> Report {
         }
         let mut out = vec![]; sm.to_writer(&mut out).ok();
         if !is_sourcemap_slice(&out) { return r("discover", bound, cases, Some(format!("serialised map not recognised by is_sourcemap_slice: {}", String::from_utf8_lossy(&out)))); }
-    } }
+    } } } }
     r("discover", bound, cases, None)
 }
 
@@ -128,21 +132,29 @@ fn text_at(line: &str, col: u32) -> Option<&str> {
     line[off..].split_whitespace().next().and_then(ident)
 }
 pub fn function_name() -> Report {
-    let bound = "4 minified programs (several functions per line, two lines, non-ASCII / astral characters before and inside identifiers, names that are prefixes of one another), tokens at every UTF-16 column (and past the end), every start token x 9 candidate names; one 140-token line for the 128-token window";
+    let bound = "5 minified programs (several functions per line, two lines, non-ASCII / astral characters before and inside identifiers, names that are prefixes of one another), tokens every 1 / 2 / 3 / 5 UTF-16 columns plus every word start (and past the end; never inside a surrogate pair), every start token x 9 candidate names; one 140-token line for the 128-token window";
     let mut cases = 0u64;
     let programs: Vec<Vec<&str>> = vec![
         vec!["function fn1(){} var é2=function g(){}", "function fn(){}function fn1 (){}"],
         vec!["/*😀*/function λx(a){return a}", "x=function(){};function $_(){}"],
+        vec!["x;function f(){\"😀\";g()} function g(){\"😀😀\";f()}"],
         vec!["function\u{200d}f(){}", "function f\u{200d}g(){} function   h(){}"],
         vec!["", "function a(){}"],
+        vec!["function é(){} function fé (){}", "var λ=function ü(){}"],
     ];
-    let names = ["fn1", "fn", "g", "é2", "λx", "$_", "f\u{200d}g", "function", "1x", "", "h", "a"];
+    let names = ["fn1", "fn", "g", "é2", "λx", "$_", "f\u{200d}g", "function", "1x", "", "h", "a", "é", "fé", "ü", "λ"];
     for prog in &programs {
         let text = prog.join("\n");
         let sv = SourceView::new(text.as_str().into());
+        for stride in [1u32, 2, 3, 5] {
         let mut b = SourceMapBuilder::new(None);
         let mut pos = vec![];
-        for (l, line) in prog.iter().enumerate() { let n16 = line.encode_utf16().count() as u32; for c in 0..=n16 + 1 { pos.push((l as u32, c)); } }
+        for (l, line) in prog.iter().enumerate() { let n16 = line.encode_utf16().count() as u32; let mut c = 0; while c <= n16 + 1 { pos.push((l as u32, c)); c += stride; }
+            // always also a token on every identifier / keyword start so that pairs exist for sparse strides
+            let mut col = 0u32; let mut prev_ws = true; for ch in line.chars() { if prev_ws && !ch.is_whitespace() && !pos.contains(&(l as u32, col)) { pos.push((l as u32, col)); } prev_ws = ch.is_whitespace() || ch == '(' || ch == '=' || ch == ';' || ch == '}'; col += ch.len_utf16() as u32; } }
+        // columns inside a surrogate pair are not positions of any character: excluded (the property places tokens on, before and after declarations)
+        pos.retain(|&(l, c)| { let mut col = 0u32; for ch in prog[l as usize].chars() { if ch.len_utf16() == 2 && c == col + 1 { return false; } col += ch.len_utf16() as u32; } true });
+        pos.sort(); pos.dedup();
         for (k, &(l, c)) in pos.iter().enumerate() { b.add(l, c, k as u32, 0, Some("o.js"), Some(&format!("orig{k}")), false); }
         let sm = b.into_sourcemap();
         let texts: Vec<Option<&str>> = pos.iter().map(|&(l, c)| text_at(prog[l as usize], c)).collect();
@@ -154,8 +166,9 @@ pub fn function_name() -> Report {
             let mut want = None;
             if valid { let lo = start.saturating_sub(127);
                 for j in (lo..=start).rev() { if texts[j] == Some(name) && j > lo && j >= 1 && texts[j - 1] == Some("function") { want = Some(format!("orig{j}")); break; } } }
-            if got != want { return r("function_name", bound, cases, Some(format!("program {prog:?}: resolving {name:?} from token #{start} at (line,col) {:?} gives {got:?}, expected {want:?}", pos[start]))); }
+            if got != want { return r("function_name", bound, cases, Some(format!("program {prog:?}, tokens every {stride} columns: resolving {name:?} from token #{start} at (line,col) {:?} gives {got:?}, expected {want:?}", pos[start]))); }
         } }
+        }
     }
     // the 128-token window
     for dist in [120usize, 126, 127, 128, 130] {
